@@ -110,9 +110,16 @@ def slotted(  # noqa: C901
             cls_dict.pop("__weakref__", None)
 
             # Pickle fix for frozen dataclass as mentioned in https://bugs.python.org/issue36424
-            # Use only if __getstate__ and __setstate__ are not declared and frozen=True
+            # Use only if __getstate__ and __setstate__ are not declared - here or on a
+            #   base (inherited hooks come as a pair, ours would break it) - and frozen=True
+            inherited_state = any(
+                param in vars(c)
+                for c in cls.__mro__[1:-1]
+                for param in ("__getstate__", "__setstate__")
+            )
             if (
                 all(param not in cls_dict for param in ["__getstate__", "__setstate__"])
+                and not inherited_state
                 and cls.__dataclass_params__.frozen
             ):
                 cls_dict["__setstate__"] = _slots_setstate
